@@ -6,7 +6,10 @@ ENTRY = {
             "and cross joins, derived tables, GROUP BY with HAVING, ORDER BY / LIMIT / OFFSET) over a generated catalog of 1-3 tables (0-60 rows, NULL densities 0/10/50/100 %) written as "
             "1-3 Parquet files per table with row groups of 2/3/5/8/16/1000 rows; answered by the single-node engine over those files (`local`) and by execute_any_distributed over TWO "
             "clusters drawn from sizes 1..8 with the initiator holding a shard (`d<N>s<K>`) or none (`d<N>x`), every remote fragment served by the REAL execute_fragment + encode_ipc of a "
-            "peer context through an in-process FragmentTransport; 1 case in 12 is forced to match no row (`forced_empty`), 1 in 12 orders by a qualified input column while another "
+            "peer context through an in-process FragmentTransport; 30 % of the cases form the stratum tail:* = a plain single-block SELECT (with or without WHERE) whose ONLY trailing clauses are "
+            "OFFSET k (4/7 of the stratum, tag tail:offset-only, >= 10 % of all cases), LIMIT n, LIMIT n OFFSET k without ORDER BY, or ORDER BY + OFFSET without LIMIT, run on clusters of "
+            "2/3/5/8 and 1/2/3/5/8 participants (judged by Spec.sameAnswer: equal row count for LIMIT/OFFSET without ORDER BY; tag …:multi = at least two shards returned rows); "
+            "of the other cases 1 in 12 is forced to match no row (`forced_empty`), 1 in 12 orders by a qualified input column while another "
             "output column carries that bare name (`shadow_order`); one environment (files + contexts) per catalog, 8 statements per catalog; "
             "non-trivial = at least two runs answered and some answer is non-empty; distinct by sha256 of the canonical case",
     "trusted_base": COMMON_TB + [
@@ -26,7 +29,8 @@ ENTRY = {
         "C09_gather is proved for the plan fragment LayoutFrag only (C09_gather_partial); the gather path as a whole is tied by the correspondence runs",
     ],
     "min_tags": {"shape:Concat": 1, "shape:TwoPhase": 1, "shape:TopN": 1, "shape:Gather": 1, "n:1": 1, "n:8": 1, "idle_node": 1, "multi_shard": 1,
-                 "self": 1, "noself": 1, "forced_empty": 1, "f:join": 1, "f:agg": 1, "f:having": 1, "f:join_left": 1, "f:join_semi": 1, "f:limit": 1, "cfg:dist:right": 1},
+                 "self": 1, "noself": 1, "forced_empty": 1, "f:join": 1, "f:agg": 1, "f:having": 1, "f:join_left": 1, "f:join_semi": 1, "f:limit": 1, "cfg:dist:right": 1,
+                 "tail:offset-only": 17, "tail:offset-only:multi": 4, "tail:limit-only:multi": 1, "tail:limit-offset:multi": 1, "tail:order-offset:multi": 1, "tail:no_where": 5},
     "explanation": "Findings C09-F1..F5 and F7 are fixed (their switches / signatures in Driver.C09 only document the corpus witnesses; nothing is attributed to a fixed id, a recurrence "
                    "is a VIOLATION). C09-F6 (open) is attributed by signature + the neutraliser `neutral_mem1` the harness actually runs. Evidence tags dev:F2|F3:hit/miss/spurious and "
                    "sig:F1:hit/nofail measure how exactly the switches mirror(ed) the code.",
